@@ -613,11 +613,49 @@ func (g *G) ambiguityFamily(rid int) {
 	}
 }
 
+// twinFamily: tokens with a brace inside (outside the well-formedness hypothesis of the theorems, inside C17's quantifier):
+// the tree can end up with two nodes carrying one pattern text; method lists whose LAST entries collide with one of them.
+func (g *G) twinFamily(rid int) {
+	g.routerLine(rid, routerOpt{name: "twin" + strconv.Itoa(rid)})
+	tok := g.pick([]string{"{abc{d}", "{a{b}", "{x{}}", "{n{:\\d+}", "{a}{b{c}"})
+	base := g.pick([]string{"/s/", "/", "/u-"}) + tok
+	tail := g.pick([]string{"/ab", "x", "/"})
+	pats := []string{base, base + tail, base + tail + "/z"}
+	sets := [][]string{{"GET", "CONNECT", "PUT"}, {"PATCH", "POST"}, {"DELETE"}}
+	h := 1
+	probe := func() {
+		g.emit("routes %d", rid)
+		for _, p := range pats {
+			w := g.instantiate(p, []string{".", "5"})
+			for _, m := range allMethods {
+				g.serveLine("serve", rid, m, w, "", nil)
+			}
+		}
+	}
+	g.emit("handle %d %s %d %%- %s", rid, encB(pats[0]), h, encL([]string{"GET"}))
+	h++
+	for i := 0; i < 2+g.intn(3); i++ {
+		g.emit("handle %d %s %d %%- %s", rid, encB(g.pick(pats[1:])), h, encL(sets[g.intn(len(sets))]))
+		h++
+	}
+	probe()
+	for i := 0; i < 4; i++ { // fresh methods first, a colliding one last
+		ms := append(g.methodList(true), g.pick([]string{"POST", "PUT", "GET", "DELETE", "PATCH"}))
+		g.emit("handle %d %s %d %%- %s", rid, encB(g.pick(pats)), h, encL(ms))
+		h++
+		probe()
+	}
+}
+
 func streamReject(g *G) { // C17
 	rid := 1
 	for !g.full() {
 		if g.chance(0.4) {
 			g.ambiguityFamily(rid)
+			rid++
+		}
+		if g.chance(0.3) {
+			g.twinFamily(rid)
 			rid++
 		}
 		g.history(rid, histCfg{useIc: g.chance(0.3), trace: g.chance(0.3), probes: 1, probeAll: true, invalid: 0.5, siblings: g.chance(0.2)}, 6+g.intn(14))
